@@ -204,13 +204,13 @@ def run_item(item) -> Acc:
                     acc.fail({"check": why, "linter": name, "ext": e}, {"cmd": cmd, "file": stem + e, "code": code, "config": cfg}, "no violation", own(got)[:2], f"{name} reported on a {why} file")
             # (3) extensionless scripts: python shebang selects python, nothing else does
             if lang == "python":
-                for sb, expect in (("#!/usr/bin/env python3\n", True), ("#!/usr/bin/python\n", True), ("#!/bin/sh\n", False), ("", False)):
+                for sb, expect in (("#!/usr/bin/env python3\n", True), ("#!/usr/bin/python\n", True), ("#!/bin/sh\n", False), ("#!/bin/sh\n# starts the tool through python -m\n", False), ("#!/usr/bin/env node\n", False), ("", False)):
                     got, r = _lint(cmd, {stem: sb + code}, cfg)
                     acc.case()
                     acc.edge()
                     acc.valid()
                     acc.nt((name, "shebang", sb))
-                    g = sorted((t[0], t[2] - (1 if sb else 0), t[4]) for t in own(got))
+                    g = sorted((t[0], t[2] - sb.count("\n"), t[4]) for t in own(got))
                     want = sorted((t[0], t[1], t[3]) for t in ref) if expect else []
                     if name in ("file-header", "lazy-ignores") and expect:
                         # header-sensitive linters: only presence is compared (the shebang is part of the header)
@@ -219,11 +219,42 @@ def run_item(item) -> Acc:
                         continue
                     if g != want:
                         acc.fail({"check": "shebang", "linter": name, "shebang": sb.strip() or "<none>"}, {"cmd": cmd, "file": stem, "code": sb + code, "config": cfg}, want[:3], g[:3], "extensionless file: python iff it has a python shebang")
+                # (4) several extensionless files in ONE run, in both orders: each is judged on its own shebang
+                if name not in ("file-header", "lazy-ignores"):
+                    script = "#!/usr/bin/env python3\n" + code
+                    for order in (["manage", "NOTES", "runner"], ["NOTES", "runner", "manage"], ["runner", "manage", "NOTES"]):
+                        fs3 = {"manage": script, "NOTES": code, "runner": "#!/bin/sh\n" + code}
+                        fs = dict(fs3)
+                        if cfg:
+                            fs[".thailint.yaml"] = yaml_dump(cfg)
+                        root = project(fs)
+                        r = obs.cli_json([cmd, *order], root)
+                        got = None if r["violations"] is None else obs.norm(r["violations"], root, root)
+                        remove(root)
+                        acc.case()
+                        acc.edge()
+                        acc.valid()
+                        acc.nt((name, "extensionless-together", tuple(order)))
+                        g = sorted((t[0], t[1], t[2] - 1, t[4]) for t in own(got))
+                        want = sorted((t[0], "manage", t[1], t[3]) for t in ref)
+                        if g != want:
+                            acc.fail({"check": "shebang", "linter": name, "shebang": "several-extensionless-files-in-one-run"}, {"cmd": cmd, "files": fs3, "order": order, "config": cfg}, want[:3], g[:3], "only `manage` has a python shebang")
         acc.sample({"triggers": item["triggers"], "variants": ["UPPER ext", "Mixed ext", "foreign ext", "unsupported ext", "shebang"]})
     return acc
 
 
 def replay_case(case) -> list[dict]:
+    if "files" in case and "order" in case:
+        root = project({**case["files"], **({".thailint.yaml": yaml_dump(case["config"])} if case.get("config") else {})})
+        r = obs.cli_subprocess([case["cmd"], "--format", "json", *case["order"]], root)
+        print(f"$ thailint {case['cmd']} --format json {' '.join(case['order'])}\nexit={r['exit_code']}\n{r['stdout'][:1500]}")
+        remove(root)
+        a = Acc()
+        doc = obs.parse_json_out(r["stdout"]) or []
+        wrong = [v for v in doc if not str(v["file"]).endswith("manage")]
+        if wrong or not doc:
+            a.fail({"replayed": True}, case, "violations for `manage` only", [(v["rule_id"], v["file"]) for v in doc][:4])
+        return a.failures
     if "file" in case:
         root = project({case["file"]: case["code"], **({".thailint.yaml": yaml_dump(case["config"])} if case.get("config") else {})})
         r = obs.cli_subprocess([case["cmd"], "--format", "json", "."], root)
